@@ -426,11 +426,11 @@ def self_check():
             for c, s in zip(orders, scores):
                 a = ref_score(c, ds, B, T)
                 b = score_from_table(c, table)
-                if abs(a - b) > 1e-6 * max(1.0, abs(a)) or abs(a - s) > 1e-6 * max(1.0, abs(a)):
+                if abs(a - b) > 1e-9 or abs(a - s) > 1e-9:
                     raise HarnessError("table-sum identity fails in reference model: %r %r %r %r" % (c, a, b, s))
             m, _ = ref_optimum(elems, table)
             d = dp_optimum(elems, table)
-            if abs(m - d) > 1e-6 * max(1.0, abs(m)):
+            if abs(m - d) > 1e-9:
                 raise HarnessError("brute force optimum %r != DP optimum %r" % (m, d))
     assert proportional(spaces.UNIFYING_X3, spaces.UNIFYING)
     assert not proportional(spaces.UNIF_B_OTHER_T, spaces.UNIFYING)
